@@ -38,6 +38,10 @@ __all__ = ['Envelope']
 _HEADER_BOUNDARY = re.compile(br'\r?\n\s*?\n')
 _LINE_BREAK = re.compile(br'\r?\n')
 
+# Never let the email package re-fold (and thereby re-parse and rewrite)
+# header lines that came in from the wire.
+_POLICY = SMTP.clone(refold_source='none')
+
 
 class Envelope(object):
     """Class containing message data and metadata. This class acts like an
@@ -87,11 +91,11 @@ class Envelope(object):
         self.timestamp = None
 
     def _parse_data(self, data, *extra):
-        return BytesParser(policy=SMTP).parse(BytesIO(data), *extra)
+        return BytesParser(policy=_POLICY).parse(BytesIO(data), *extra)
 
     def _msg_generator(self, msg):
         outfp = BytesIO()
-        BytesGenerator(outfp, policy=SMTP).flatten(msg, False)
+        BytesGenerator(outfp, policy=_POLICY).flatten(msg, False)
         return outfp.getvalue()
 
     def _merge_payloads(self, headers, payload):
@@ -117,6 +121,9 @@ class Envelope(object):
         :param value: The header value string.
 
         """
+        # Build a header object, so that the new header is folded when the
+        # message is generated (source headers are left exactly as parsed).
+        value = self.headers.policy.header_factory(name, value)
         self.headers._headers.insert(0, (name, value))  # type: ignore
 
     def copy(self, new_rcpts=None):
